@@ -14,7 +14,7 @@ out = ["# Seeded property-breaking changes", "",
        "the checks with `tools/try_patch.py` (scratch worktree + `MOSAIK_REPO`; /repo itself is never modified).", "",
        "| id | property | needs, in order to manifest | confirmed | caught by |", "|---|---|---|---|---|"]
 for d, m in rows:
-    out.append(f"| {d} | {m.get('property')} | {m.get('needs','')} | {'yes' if m.get('confirmed') else 'NO'} | {', '.join(m.get('caught_by', [])) or '**missed**'} |")
+    out.append(f"| {d} | {m.get('property')} | {m.get('needs','')} | {'yes' if m.get('confirmed') else 'NO'} | {', '.join(m.get('caught_by', [])) or ('neutralised by the repair of D34' if 'NEUTRALISED' in m.get('note', '') else '**missed**')} |")
 st = os.path.join(verif, "mutants", "selftest_last.txt")
 if os.path.exists(st):
     out += ["", "# Negative-control mutants (`mutants/*.patch`, `tools/selftest.py`)", "", "```"] + [l.rstrip() for l in open(st) if l.startswith(("CAUGHT", "MISSED"))] + ["```"]
